@@ -199,8 +199,11 @@ def chan_trace_key(hist, info):
             return "%s/%s" % (c.get("meth"), "nb" if c.get("nb") else "b")
         return c.get("op", "?")
     if ev.get("ev") == "quiescent":
-        blocked = sorted({name(i) for i in ev.get("blocked", [])})
-        return "chan/trace/quiescent/%s" % ("+".join(blocked) if blocked else "returned-or-len")
+        # TLC cannot say which of the calls still pending is the wrong one; a NonBlocking call among them certainly is
+        nb = sorted({name(i) for i in ev.get("blocked", []) if calls.get(i, {}).get("nb")})
+        if nb:
+            return "chan/trace/quiescent/%s/blocked" % "+".join(nb)
+        return "chan/trace/quiescent/%s" % ("pending-calls-not-explained" if ev.get("blocked") else "returned-or-len")
     if ev.get("ev") == "ret":
         if str(ev.get("res", "")).startswith("panic"):
             return "chan/trace/%s/panic" % name(ev.get("id"))
@@ -213,8 +216,7 @@ def dist_trace_key(hist, info):
     kind = hist[0].get("kind", "?")
     calls = {e["id"]: e for e in hist if e.get("ev") == "call"}
     if ev.get("ev") == "quiescent":
-        blocked = sorted({calls.get(i, {}).get("op", "?") for i in ev.get("blocked", [])})
-        return "dist/%s/trace/quiescent/%s" % (kind, "+".join(blocked) if blocked else "returned-or-len")
+        return "dist/%s/trace/quiescent/%s" % (kind, "pending-calls-not-explained" if ev.get("blocked") else "returned-or-len")
     if ev.get("ev") == "ret":
         c = calls.get(ev.get("id"), {})
         if str(ev.get("res", "")).startswith("panic"):
